@@ -205,7 +205,7 @@ def spec_of(kind, variant=0):
     if kind == "F":
         return ["value", FALSY[variant % len(FALSY)]]
     if kind == "E":
-        return ["error", "E1"]
+        return ["error", "EF" if variant % 3 == 2 else "E1"]  # (now and then a falsy exception instance)
     if kind == "C":
         return ["cancel"]
     return None
